@@ -313,7 +313,10 @@ def base_pool(rng):
     add("fa", gfa.random_case(rng, max_states=3, max_syms=2, kinds=("dfa",), vcs=["int"], token=True))
     add("regex", rs.render(rs.gen_ast(rng, 2, escaped=0), rng).replace("cd", "a").replace("x1", "b"))
     add("regex", rs.render(rs.gen_ast(rng, 1, escaped=0), rng).replace("cd", "b").replace("x1", "a"))
-    add("cfg", gcfg.random_case(rng, max_vars=3, max_terms=2, max_prods=5, max_body=3, vcs=["str"]))
+    if rng.random() < 0.4:
+        add("cfg", gcfg.two_route_case(rng))
+    else:
+        add("cfg", gcfg.random_case(rng, max_vars=3, max_terms=2, max_prods=5, max_body=3, vcs=["str"]))
     add("cfg", gcfg.random_case(rng, max_vars=2, max_terms=2, max_prods=4, max_body=2, vcs=["str", "lower"]))
     add("pda", gpda.random_case(rng, max_states=2, max_trans=4, max_push=2, vcs=["str"]))
     add("fst", gfst.random_case(rng, max_states=2, max_trans=4, vcs=["str"]))
